@@ -42,7 +42,7 @@ def gen_case(seed, cid, n_inputs, features=None, depth=3, observe_all=False):
             "gen": {"n_inputs": n_inputs, "features": sorted(features) if features else None, "depth": depth, "observe_all": observe_all}}
 
 
-UNTYPED_NOTES = ("untyped-literal", "untyped-aggregate", "untyped-shift-lhs")
+UNTYPED_NOTES = ("untyped-literal", "untyped-aggregate", "untyped-shift-lhs", "untyped-array-element")
 
 
 def uses_untyped_literals(c):
